@@ -351,8 +351,13 @@ def job_affine(J):
             J.claim(r, "is_extended_zero does not raise", False, **kw)
             continue
         want = z3.And(X.t == 0, Y.t % Q == Z.t % Q, Y.t % Q != 0)
-        J.claim(r, "is_extended_zero <=> X = 0 and Y = Z != 0 (mod Q), i.e. the point (0, 1)  [returned %s]" % r.value,
-                want if r.value else z3.Not(want), **kw)
+        from symx.core import SymBool as _SB
+        if isinstance(r.value, _SB):          # the function may hand back the (symbolic) truth value itself
+            J.claim(r, "is_extended_zero <=> X = 0 and Y = Z != 0 (mod Q), i.e. the point (0, 1)  [returned a condition]",
+                    r.value.t == want, **kw)
+        else:
+            J.claim(r, "is_extended_zero <=> X = 0 and Y = Z != 0 (mod Q), i.e. the point (0, 1)  [returned %s]" % bool(r.value),
+                    want if r.value else z3.Not(want), **kw)
 
 
 # ------------------------------------------------------------------ oracle
